@@ -350,6 +350,35 @@ Section Init.
     - rewrite element_entry by assumption. now rewrite Hse.
   Qed.
 
+  Lemma element_row_length kd s k : s < nslots kd -> k < cnt dim nd ed fd id kd ->
+    length (nth (rowpos kd s k) (D_element D) []) = nt.
+  Proof.
+    intros Hs Hk. rewrite element_groups.
+    assert (L1 : length G_nodal = length t * nd) by (unfold G_nodal; now rewrite gather_rows_length, block_length).
+    assert (L2 : length G_edge = length t2e * ede) by (unfold G_edge; now rewrite gather_rows_length, block_length).
+    assert (L3 : length G_facet = length t2f * fd) by (unfold G_facet; now rewrite gather_rows_length, block_length).
+    destruct kd; simpl in Hs, Hk; unfold rowpos.
+    - rewrite app_nth1 by (rewrite L1; nia). unfold G_nodal.
+      pose proof (gather_rows_nth (block nd nv (koff' Nodal)) t s k) as G. rewrite block_length in G.
+      rewrite G by assumption. rewrite map_length. now apply Ht.
+    - rewrite <- L1, app_nth2_plus. rewrite app_nth1 by (rewrite L2; nia). unfold G_edge.
+      pose proof (gather_rows_nth (block ede ne (koff' Edge)) t2e s k) as G. rewrite block_length in G.
+      rewrite G by assumption. rewrite map_length. now apply Ht2e.
+    - rewrite <- L1, app_nth2_plus, <- L2, app_nth2_plus. rewrite app_nth1 by (rewrite L3; nia). unfold G_facet.
+      pose proof (gather_rows_nth (block fd nf (koff' Facet)) t2f s k) as G. rewrite block_length in G.
+      rewrite G by assumption. rewrite map_length. now apply Ht2f.
+    - rewrite <- L1, app_nth2_plus, <- L2, app_nth2_plus, <- L3, app_nth2_plus. unfold G_int.
+      rewrite block_row by exact Hk. now rewrite map_length, seq_length.
+  Qed.
+
+  Theorem all_used_in d : off <= d < off + tot -> In d (concat (D_element D)).
+  Proof.
+    intros Hd. destruct (all_used d Hd) as [r [e [Hr [He Hn]]]].
+    apply in_concat. exists (nth r (D_element D) []). split; [now apply nth_In|].
+    rewrite <- Hn. apply nth_In. destruct (row_decompose r Hr) as [kd [s [k [Hs [Hk ->]]]]].
+    now rewrite element_row_length.
+  Qed.
+
   (* N = max + 1 is the total count: contiguous range off .. off+N-1 *)
   Theorem N_is_total : 0 < tot -> 0 < nt -> D_N D = off + tot.
   Proof.
@@ -404,3 +433,79 @@ Proof.
   - intros x Hx. destruct (t2f_onto cells indices x Hx) as [s [e [Hs [He Heq]]]].
     exists s, e. rewrite L. now repeat split.
 Qed.
+
+(* ------------------------------------------------------------------ the DOF location table (abstract_basis.py 61-73) *)
+Lemma set_nth_length {A} k (v : A) : forall l, length (set_nth k v l) = length l.
+Proof. induction k as [|k IH]; intros [|x l]; simpl; auto. Qed.
+
+Lemma set_nth_nth {A} k (v : A) : forall l j d, k < length l ->
+  nth j (set_nth k v l) d = if j =? k then v else nth j l d.
+Proof.
+  induction k as [|k IH]; intros [|x l] j d H; simpl in *; try lia.
+  - destruct j; reflexivity.
+  - destruct j as [|j]; [reflexivity|]. simpl. apply IH. lia.
+Qed.
+
+Section Scatter.
+  Variable A : Type.
+  Variable loc : nat -> A.     (* the location every cell assigns to a DOF: "mapped reference locations coincide" *)
+
+  Lemma scatter_row_spec : forall idx vals tab d0 d,
+    length vals = length idx -> (forall i, In i idx -> i < length tab) ->
+    (forall k, k < length idx -> nth k vals d0 = loc (nth k idx 0)) ->
+    length (scatter_row tab idx vals) = length tab /\
+    nth d (scatter_row tab idx vals) d0 = if existsb (Nat.eqb d) idx then loc d else nth d tab d0.
+  Proof.
+    unfold scatter_row. induction idx as [|i idx IH]; intros vals tab d0 d HL HB HV; simpl.
+    - destruct vals; simpl; auto.
+    - destruct vals as [|v vals]; [discriminate|]. simpl.
+      assert (Hi : i < length tab) by (apply HB; now left).
+      destruct (IH vals (set_nth i v tab) d0 d) as [L E].
+      + simpl in HL. lia.
+      + intros j Hj. rewrite set_nth_length. apply HB. now right.
+      + intros k Hk. apply (HV (S k)). simpl. lia.
+      + rewrite set_nth_length in L. split; [exact L|]. rewrite E.
+        destruct (existsb (Nat.eqb d) idx) eqn:Ex; [now rewrite orb_true_r|]. rewrite orb_false_r.
+        rewrite set_nth_nth by exact Hi. destruct (Nat.eqb_spec d i) as [->|Hne]; [|reflexivity].
+        exact (HV 0 ltac:(simpl; lia)).
+  Qed.
+
+  Lemma scatter_rows_spec : forall edofs X tab d0 d,
+    length X = length edofs ->
+    (forall r, r < length edofs -> length (nth r X []) = length (nth r edofs []) /\
+        (forall i, In i (nth r edofs []) -> i < length tab) /\
+        (forall k, k < length (nth r edofs []) -> nth k (nth r X []) d0 = loc (nth k (nth r edofs []) 0))) ->
+    nth d (fold_left (fun acc rx => scatter_row acc (fst rx) (snd rx)) (combine edofs X) tab) d0
+    = if existsb (fun row => existsb (Nat.eqb d) row) edofs then loc d else nth d tab d0.
+  Proof.
+    induction edofs as [|row edofs IH]; intros X tab d0 d HL H; simpl.
+    - destruct X; reflexivity.
+    - destruct X as [|x X]; [discriminate|]. simpl.
+      destruct (H 0 ltac:(simpl; lia)) as [L0 [B0 V0]]. simpl in L0, B0, V0.
+      destruct (scatter_row_spec row x tab d0 d L0 B0 V0) as [Ln En].
+      rewrite IH.
+      + rewrite En. destruct (existsb (Nat.eqb d) row); simpl; [|reflexivity].
+        now destruct (existsb (fun row0 => existsb (Nat.eqb d) row0) edofs).
+      + simpl in HL. lia.
+      + intros r Hr. destruct (H (S r) ltac:(simpl; lia)) as [L1 [B1 V1]]. simpl in L1, B1, V1.
+        split; [exact L1|]. split; [|exact V1]. intros i Hi. rewrite Ln. now apply B1.
+  Qed.
+
+  (* the table holds loc d for every number that occurs in element_dofs, whatever the order of the writes *)
+  Theorem scatter_consistent zero N edofs X d :
+    length X = length edofs ->
+    (forall r, r < length edofs -> length (nth r X []) = length (nth r edofs []) /\
+        (forall i, In i (nth r edofs []) -> i < N) /\
+        (forall k, k < length (nth r edofs []) -> nth k (nth r X []) zero = loc (nth k (nth r edofs []) 0))) ->
+    In d (concat edofs) ->
+    nth d (scatter_doflocs zero N edofs X) zero = loc d.
+  Proof.
+    intros HL H Hd. unfold scatter_doflocs. rewrite scatter_rows_spec; [| exact HL |].
+    - assert (Ex : existsb (fun row => existsb (Nat.eqb d) row) edofs = true).
+      { apply in_concat in Hd. destruct Hd as [row [Hrow Hin]]. apply existsb_exists. exists row. split; [exact Hrow|].
+        apply existsb_exists. exists d. split; [exact Hin | apply Nat.eqb_refl]. }
+      now rewrite Ex.
+    - intros r Hr. destruct (H r Hr) as [L [B V]]. split; [exact L|]. split; [|exact V].
+      intros i Hi. rewrite repeat_length. now apply B.
+  Qed.
+End Scatter.
